@@ -25,6 +25,12 @@ COARSE_MC = ["lf_t1", "lf_b1"]
 PROCS = 4         # GOMAXPROCS of the free-running parallel histories (set by the driver itself)
 
 # harness runs: (tag, driver opt, monitor, {tier: number of generated executions})
+# advisory X-level conformance (LifoXTrace.tla): scenarios and executions per scenario
+# (a seeded sample of the TLC schedules of the scenario where a graph is dumped + seeded random schedules).
+# The 4-process scenarios whose graph is too large to model check finely can still be validated as traces.
+XCONF = {"quick": dict(names=["lf_q1", "lf_q2"], nsched=60, nrand=40),
+         "thorough": dict(names=["lf_q1", "lf_q2", "lf_t2", "lf_t3", "lf_t1", "lf_b1"], nsched=3000, nrand=2000)}
+
 RUNS = [
     ("m1", "kind=lifo", "LifoPTrace", {"quick": 3000, "thorough": 30000}),            # + the TLC schedules
     ("lpar", "kind=lifo,par,procs=%d" % PROCS, "LifoPTrace", {"quick": 3000, "thorough": 40000}),
@@ -190,6 +196,62 @@ def run(prop, tier, seed):
         "samples": st["samples"][:3] or [{"note": "no sample"}],
         "exhaustive": False,
     }
+    # advisory conformance of the internal steps of the controlled AtomicLIFO executions against the
+    # X spec (DRIFT is reported, never a verdict)
+    try:
+        cov["x_conformance"] = x_conformance(wd, binp, seed, scheds=scheds, **XCONF[tier])
+    except Exception as e:  # advisory only
+        cov["x_conformance"] = {"error": str(e)[:500]}
     base_assume = ["TLC 1.8.0; CommunityModules Json/IOUtils", "testing/synctest durable-blocking detection (go1.26.8)",
                    "harness built with go1.26.8, not the go1.23 toolchain of the pinned suite"]
     return vlib.finish(prop, tier, seed, "model_checking", cov, mine, t0, base_assume + FAM["assumptions"], replay_builder=replay)
+
+
+# --------------------------------------------------------------------------- advisory X-level conformance
+
+def x_conformance(wd, binp, seed, names, nsched=60, nrand=40, scheds=None):
+    """Controlled (M1) AtomicLIFO executions of each scenario, recorded with every controller step logged
+    (-logsteps), are replayed through the actions of Lifo.tla itself (LifoXTrace.tla): a seeded sample of
+    the scenario's TLC schedules + seeded random schedules (empty labels).  One harness run and one TLC run
+    per scenario (the scenario is a CONSTANT of the X spec).  The free-running parallel histories and the
+    LinkedList runs have no controller steps and are not subject to it.  Returns a summary; never a verdict."""
+    import random, shutil, subprocess
+    total = dict(traces=0, events=0, steps=0, drift=0, wall_s=0.0, scenarios=list(names), samples=[])
+    t0 = time.time()
+    for name in names:
+        sc = json.load(open(scen_path(name)))
+        mine = [s for s in (scheds or []) if s["name"].startswith(name + "/")]
+        random.Random(seed * 7919 + len(mine)).shuffle(mine)
+        xs = [{"name": "%s/xs%d" % (name, i), "scenario": sc, "labels": s["labels"]} for i, s in enumerate(mine[:nsched])]
+        xs += [{"name": "%s/x%d" % (name, i), "scenario": sc, "labels": []} for i in range(nrand + nsched - len(xs))]
+        sf = os.path.join(wd, "x-%s-scheds.json" % name)
+        json.dump(xs, open(sf, "w"))
+        tf = os.path.join(wd, "x-%s.ndjson" % name)
+        stf = os.path.join(wd, "x-%s.stats.json" % name)
+        p = subprocess.run([binp, "-test.run", "^TestRun$", "-driver", FAM["driver"], "-out", tf, "-stats", stf, "-sched", sf, "-seed", str(seed), "-logsteps"],
+                           cwd=wd, capture_output=True, text=True)
+        if p.returncode != 0:
+            total["samples"].append("%s: harness failed" % name)
+            continue
+        d = vlib.spec_scratch(wd, "x-" + name, SPECDIRS)
+        prog = [[dict(op=o["op"], v=o.get("v", 0)) for o in cl] for cl in sc["clients"]]
+        init = list(reversed(sc.get("init", [])))     # top first
+        vlib.write_mc(d, "MCX", "LifoXTrace", ["ScProg == " + vlib.json2tla(prog), "ScInit == " + vlib.json2tla(init)],
+                      ["INIT TInit", "NEXT TNext", "CHECK_DEADLOCK FALSE", "CONSTANTS", " Prog <- ScProg", " InitStk <- ScInit", " Fine = FALSE"])
+        vf = os.path.join(d, "verdict.json")
+        r = vlib.run_tlc(d, "MCX", "MCX.cfg", workers=1, timeout=600,
+                         env={"TRACE_FILE": tf, "VERDICT_FILE": vf,
+                              "JAVA_TOOL_OPTIONS": "-DTLA-Library=%s -Xmx3g -Xss256m -Dtlc2.tool.impl.Tool.cdot=true" % vlib.TLA_LIB})
+        if not os.path.exists(vf):
+            total["samples"].append("%s: X-trace validation did not finish: %s" % (name, r["error"]))
+            continue
+        v = json.load(open(vf))
+        total["traces"] += len(xs)
+        total["events"] += v["total"]
+        total["steps"] += json.load(open(stf)).get("steps", 0) if os.path.exists(stf) else 0
+        total["drift"] += len(v["drift"])
+        total["samples"] += ["%s: %s" % (name, json.dumps(x)) for x in v["drift"][:2]]
+        shutil.rmtree(d, ignore_errors=True)
+    total["wall_s"] = round(time.time() - t0, 1)
+    vlib.log("[x-conformance] %d traces, %d events, drift=%d in %.1fs" % (total["traces"], total["events"], total["drift"], total["wall_s"]))
+    return total
